@@ -369,6 +369,11 @@ func (w c08) Run(b api.Batch) *api.Result {
 		// (d) a parsed Application reused after a run on another variant
 		{
 			other := configFor(allVariants[r.Intn(len(allVariants))], r.Intn(16), r)
+			if r.Chance(1, 2) {
+				// the same machine configuration twice: whatever the first run leaves
+				// inside the parsed program meets the very code that left it
+				other = cfg
+			}
 			app, err := core.Parse(c.Prog)
 			if err == nil {
 				func() {
